@@ -28,6 +28,18 @@ Theorem C09 : forall (p talker channel : list Z) (fill : Z),
 Proof. exact frame_wellformed. Qed.
 Print Assumptions C09.
 
+(* The same without the length bound: for a non-empty armored payload of ANY length and any fill >= 0, every clause but
+   the 80-character limit holds (fragment counts of several digits included); the limit holds up to 540 characters.
+   The bound is tight: C09_bound_tight below shows a 541-character payload whose first sentence has 81 characters. *)
+Theorem C09_any_length : forall (p talker channel : list Z) (fill : Z),
+  (talker = frm_AIVDM \/ talker = frm_AIVDO) -> (channel = [65] \/ channel = [66]) ->
+  Forall (fun c => fs_armor_alphabet c = true) p -> (1 <= length p)%nat -> 0 <= fill ->
+  exists ss, ais_to_nmea_0183 p talker channel fill = Ok ss /\
+             (forall cl : fs_clause, cl <> ClLength -> fs_clause_holds talker channel p fill ss cl = true) /\
+             ((length p <= 540)%nat -> fill <= 9 -> fs_clause_holds talker channel p fill ss ClLength = true).
+Proof. exact frame_clauses. Qed.
+Print Assumptions C09_any_length.
+
 (* Armoring, for ALL bit strings (no length bound): encode_ascii_6 succeeds; the fill bits are the padding needed to
    reach a six-bit boundary; the text is the specification's armoring, over the 64-character alphabet, one character per
    started group of six bits; and de-armoring it with that fill gives the bits back. *)
@@ -143,3 +155,9 @@ Proof.
   split; [vm_compute; split; apply Nat.leb_le; reflexivity|].
   vm_compute. reflexivity.
 Qed.
+
+Example C09_bound_tight :
+  exists ss, ais_to_nmea_0183 (repeat 48 541) frm_AIVDM [65] 0 = Ok ss /\
+             fs_clause_holds frm_AIVDM [65] (repeat 48 541) 0 ss ClLength = false /\
+             length (hd [] ss) = 81%nat.
+Proof. eexists. split; [vm_compute; reflexivity|]. split; vm_compute; reflexivity. Qed.
